@@ -193,8 +193,11 @@ def nested_functions(fn, qual):
     return out
 
 
-def all_functions(decls, main_file=None):
+def all_functions(decls, patterns=False):
     """Every function-like declaration with a body reachable from `decls`.
+
+    Template patterns (the dependent, uninstantiated bodies under ClassTemplateDecl / FunctionTemplateDecl)
+    are skipped unless patterns=True; their instantiations are always included.
 
     Returns (funcs, by_id): funcs = [(qualified name, node)], lambdas included as `outer:lambda`;
     by_id maps the id of every (re)declaration to its definition node (previousDecl chains followed),
@@ -239,8 +242,15 @@ def all_functions(decls, main_file=None):
                     visit(c, sub, file)
             return
         if k in CONTAINER_KINDS:
+            first_fn = True
             for c in cir.kids(d):
                 if c and c.get("k", "").endswith("Decl"):
+                    if not patterns and k == "ClassTemplateDecl" and c.get("k") == "CXXRecordDecl":
+                        continue
+                    if not patterns and k == "FunctionTemplateDecl" and c.get("k") in FUNC_KINDS and first_fn:
+                        first_fn = False
+                        decl_nodes[c.get("id")] = c
+                        continue
                     visit(c, scope, file)
 
     for d in decls:
@@ -842,7 +852,8 @@ def local_defs(fn, var_id):
     for n in cir.walk(b) if b else ():
         if n.get("k") == "VarDecl" and n.get("id") == var_id:
             init = [c for c in cir.kids(n) if c is not None and not c.get("k", "").endswith("Attr")]
-            out.append((n, init[-1] if init else None))
+            if init or n.get("k") == "ParmVarDecl":
+                out.append((n, init[-1] if init else None))     # a declaration without initialiser defines nothing
     for lv, w, how in writes(b, own=False) if b else ():
         if ref_id(lv) == var_id:
             c = cir.kids(w)
@@ -964,3 +975,118 @@ def enclosing_map(root):
                 par[id(c)] = x
                 stack.append(c)
     return par
+
+
+# ----------------------------------------------------------------------------------------------
+# per-construct verdicts over all paths; comparison leaves
+
+CMP_MIRROR = {"<": ">", ">": "<", "<=": ">=", ">=": "<=", "==": "==", "!=": "!="}
+
+
+class Events:
+    """construct -> verdict; a construct is discharged only if every visit (path) discharged it."""
+
+    def __init__(self):
+        self.ev = {}
+
+    def note(self, construct, ok, node, msg, sample=None):
+        e = self.ev.get(construct)
+        if e is None:
+            e = self.ev[construct] = {"ok": True, "line": node.get("line") if node else None, "msg": None,
+                                      "sample": sample}
+        if not ok and e["ok"]:
+            e["ok"] = False
+            e["msg"] = msg
+            e["line"] = (node.get("line") if node else None) or e["line"]
+
+    def flush(self, res, rule, prefix, file):
+        for c, e in sorted(self.ev.items()):
+            key = f"{prefix}:{c}"
+            if e["ok"]:
+                res.ok(rule, key, dict({"file": file, "line": e["line"]}, **(e["sample"] or {})))
+            else:
+                res.bad(rule, key, file, e["line"], e["msg"])
+
+
+def cmp_sides(cond):
+    """(op, left, right) of a comparison leaf, else None."""
+    c = cir.strip(cond)
+    if c is None:
+        return None
+    if c.get("k") == "BinaryOperator" and c.get("op") in CMP_MIRROR:
+        a, b = cir.kids(c)
+        return c.get("op"), a, b
+    if c.get("k") == "CXXOperatorCallExpr":
+        ks = cir.kids(c)
+        opn = cir.text(ks[0]).replace("operator", "")
+        if opn in CMP_MIRROR and len(ks) == 3:
+            return opn, ks[1], ks[2]
+    return None
+
+
+# ----------------------------------------------------------------------------------------------
+# self-test support (baseline-aware scratch-copy mutants; used by the C03 / C40 checkers)
+
+_RULE_LINE = re.compile(r"rule=(\S+) construct=(\S+?):? ")
+
+
+def run_mutants(pid, res, mutants, parts=("include", "src", "cmake", "CMakeLists.txt", "plugin"), jobs=6):
+    """Run anchored text mutants of /repo on scratch copies and compare with the current result.
+
+    mutants: dicts {id, edits: [(file, old, new[, count])], expect: (rule, construct substring) | None,
+    fixes: [(rule, construct substring)] (controls only: reports that the edit must make disappear)}.
+    A must-fire mutant has to add a (rule, construct) report that is not in the unmutated result;
+    a control (expect None) has to reproduce exactly the unmutated set of reports.  An analyser
+    refusal (exit 2) is accepted for must-fire mutants only (fail-closed) and listed as such.
+    Stale anchors are counted, not failed."""
+    import concurrent.futures as cf
+    from . import scratch
+    base = {(v["rule"], v["construct"]) for v in res.violations}
+
+    def one(m):
+        try:
+            with scratch.scratch(list(parts)) as root:
+                for e in m["edits"]:
+                    try:
+                        scratch.edit(root, e[0], e[1], e[2], e[3] if len(e) > 3 else 1)
+                    except RuntimeError:
+                        return m["id"], "stale", ""
+                rc, out = scratch.run_check(pid, root)
+        except Exception as ex:  # pragma: no cover
+            return m["id"], "error", str(ex)
+        got = set()
+        for line in out.splitlines():
+            mm = re.search(r"rule=(\S+) construct=(\S+)", line)
+            if mm:
+                got.add((mm.group(1), mm.group(2).rstrip(":")))
+        if rc == 2:
+            return m["id"], ("refused" if m["expect"] else "control-refused"), out[-400:]
+        if m["expect"] is None:
+            # a control may be a *fix*: the listed (rule, construct substring) reports must disappear, nothing else change
+            want = {b for b in base if not any(b[0] == f[0] and f[1] in b[1] for f in m.get("fixes", ()))}
+            if m.get("fixes") and want == base:
+                return m["id"], "stale", "the finding this fix removes is not reported on the unmutated tree"
+            if got == want:
+                return m["id"], "silent", ""
+            return m["id"], "control-fired", f"extra={sorted(got - want)} missing={sorted(want - got)}"
+        new = got - base
+        hit = [g for g in new if g[0] == m["expect"][0] and m["expect"][1] in g[1]]
+        return m["id"], ("fired" if hit else "missed"), f"new={sorted(new)}"
+
+    res.rule("SELFTEST", "scratch-copy mutants are reported naming the construct; controls reproduce the unmutated "
+             "result exactly", floor=0)
+    with cf.ThreadPoolExecutor(max_workers=jobs) as ex:
+        results = list(ex.map(one, mutants))
+    bad, summary = [], {}
+    for mid, status, detail in results:
+        summary[mid] = status
+        if status in ("fired", "silent", "refused"):
+            res.ok("SELFTEST", mid, {"status": status})
+        elif status == "stale":
+            res.count("selftest_stale")
+        else:
+            bad.append((mid, status, detail))
+    res.extra["selftest"] = summary
+    if bad:
+        raise AnalysisError("checker self-test failed: " + "; ".join(f"{m}: {s} [{d[:300]}]" for m, s, d in bad))
+    return summary
